@@ -1,4 +1,5 @@
 import FluentModel.Util
+import FluentModel.Generated
 /-!
 # Numbers (model of `fluent-bundle/src/types/number.rs`)
 
@@ -68,5 +69,80 @@ def mfdOfSource (bs : Bytes) : Option Nat :=
   match splitAtDot bs with
   | (_, some f) => some f.length
   | (_, none) => none
+
+end FluentModel.Num
+
+namespace FluentModel.Num
+
+/-! ## `FluentNumber`, options, `FromStr`, `as_string`, `NUMBER` option merge
+
+Values are exact decimals (`Dec`).  `f64` parsing accepts more than `parseDec` (exponents, `inf`,
+`nan`, `.5`, `5.`, `+1`); such sources are outside the model's domain: `tryNumber` answers
+`unsupported` for them and the correspondence check skips the case (the implementation is still
+run against the property predicates). -/
+
+inductive NumType where
+  | cardinal | ordinal
+  deriving Repr, DecidableEq
+
+/-- the options the model tracks (`FluentNumberOptions`); the others (`style`, `currency`, …) do not
+influence formatting or selection in this code base and are carried only for equality of exact keys -/
+structure NumOptions where
+  type : NumType := .cardinal
+  minimumFractionDigits : Option Nat := none
+  /-- all remaining options in a canonical textual form (for `PartialEq` of exact number keys) -/
+  rest : List (String × String) := []
+  deriving Repr, DecidableEq
+
+structure FluentNumber where
+  value : Dec
+  options : NumOptions := {}
+  deriving Repr, DecidableEq
+
+/-- upper bound for `minimumFractionDigits` (`MAX_FRACTION_DIGITS` in number.rs; re-extracted into
+`Generated.maxFractionDigits` and compared by the driver) -/
+def maxFractionDigits : Nat := Generated.maxFractionDigits
+
+/-- numeric equality of two exact decimals (`f64 ==` on the domain): same sign unless both zero,
+same digits after normalisation -/
+def Dec.isZero (d : Dec) : Bool := (d.int ++ d.frac).all (· == 0)
+def Dec.valueEq (a b : Dec) : Bool :=
+  let na := (stripLeadingZeros a.int, stripTrailingZeros a.frac)
+  let nb := (stripLeadingZeros b.int, stripTrailingZeros b.frac)
+  na == nb && (a.neg == b.neg || (a.isZero && b.isZero))
+
+/-- `FluentNumber::eq` (derived `PartialEq`: value and all options) -/
+def FluentNumber.eq (a b : FluentNumber) : Bool := a.value.valueEq b.value && a.options == b.options
+
+inductive TryNum where
+  | number (n : FluentNumber)
+  | notNumber            -- `f64::from_str` fails: the value stays a string
+  | unsupported          -- `f64::from_str` may succeed but the value is outside the exact-decimal domain
+
+/-- does `f64::from_str` certainly reject these bytes?  (anything that is not made of the characters
+a float literal can contain) -/
+def surelyNotFloat (bs : Bytes) : Bool :=
+  bs.isEmpty || bs.any fun b =>
+    !(isDigit b || b == 43 || b == 45 || b == 46 ||
+      (strBytes "einfatyEINFATY").contains b)
+
+/-- `FluentValue::try_number` = `FluentNumber::from_str`:
+`minimum_fraction_digits = input.find('.').map(|pos| input.len() - pos - 1)` -/
+def tryNumber (bs : Bytes) : TryNum :=
+  match parseDec bs with
+  | some d => if sigDigits d > 15 then .unsupported else .number ⟨d, { minimumFractionDigits := mfdOfSource bs }⟩
+  | none => if surelyNotFloat bs then .notNumber else .unsupported
+
+/-- `FluentNumber::as_string`: `value.to_string()` padded with zeros up to
+`min(minimum_fraction_digits, 100)` fraction digits -/
+def asString (n : FluentNumber) : Bytes :=
+  let v := strBytes (display n.value)
+  match n.options.minimumFractionDigits with
+  | none => v
+  | some minfd =>
+    let minfd := min minfd maxFractionDigits
+    match splitAtDot v with
+    | (_, some frac) => v ++ List.replicate (minfd - frac.length) 48
+    | (_, none) => v ++ [46] ++ List.replicate minfd 48
 
 end FluentModel.Num
